@@ -293,6 +293,12 @@ class Tr:
                 self.calls.add('calculate_index')
                 t = self.fresh()
                 return binds + [f'{t} <- CALL_calculate_index {" ".join(args)}'], t
+            if nm == 'round_pow2':
+                # utility::round_pow2(e): T is deduced from the argument, i.e. the type the value has
+                b, a = self.expr(inner[1])
+                self.free['fuel'] = 'nat'
+                t = self.fresh()
+                return b + [f'{t} <- gen_round_pow2 (ty {a}) fuel {a}'], t
             if nm == 'compute':
                 # morton_pdep_mask<..>::compute(c): hand-written pdep model (PdepModel.v)
                 txt = re.sub(r'\s+', '', self.text(callee))
@@ -736,7 +742,7 @@ CALLEES = {('Morton', 'calculate_index'): 'gen_morton_index',
            ('Hilbert', 'calculate_index'): 'gen_hilbert_index',
            ('HilbertAt', 'calculate_index'): 'gen_hilbert_index',
            ('Hilbert', 'rot'): 'gen_hilbert_rot'}
-GROUP_IMPORTS = {'Morton': ', PdepModel', 'HilbertAt': '.\nFrom Covfie.gen Require Import Gen_Hilbert'}
+GROUP_IMPORTS = {'Morton': ' PdepModel', 'Hilbert': '.\nFrom Covfie.gen Require Import Gen_Numeric', 'HilbertAt': '.\nFrom Covfie.gen Require Import Gen_Hilbert'}
 
 
 def resolve_calls(gname, defs, byname):
